@@ -644,6 +644,9 @@ func (r *Run) Finish(lv Level) {
 			os.Exit(3)
 		}
 		dir := filepath.Join(VerifDir(), "evidence")
+		if d := os.Getenv("VERIF_EVIDENCE_DIR"); d != "" {
+			dir = d
+		}
 		os.MkdirAll(dir, 0o755)
 		if err := os.WriteFile(filepath.Join(dir, r.Prop+".json"), append(b, '\n'), 0o644); err != nil {
 			fmt.Fprintln(os.Stderr, "evidence:", err)
